@@ -36,7 +36,11 @@ RULE = ("sequential histories of 5-80 ops (QueryRow 30%, QueryRowIndex 20% [Cach
         "1 s..4000 s, Corrupt) over 4 primary keys / 3 index values, expiries (100,10) (20,5) (60,10) (3600,60) "
         "(7d,60) s, and in 30% of the sequential histories a long configured expiry / notFoundExpire from {1h, 1d, 7d, 90d, "
         "101d, 112d, 180d, 1y, 10y} with draws at both ends and the middle (m = 0, 512, 1023) and advances around "
-        "0.95e / 1.05e; jitter draws u=m/1024 scripted per op; the TTL of every key is read back from miniredis after "
+        "0.95e / 1.05e; node / cluster caches are built by struct literals, cache.New (Config of 1-3 nodes) or "
+        "cache.NewNode with both / one / none of WithExpire, WithNotFoundExpire; 5% of the reads are issued under an "
+        "already cancelled context (cached and uncached keys); in 70% of the node / cluster histories the cleaner runs "
+        "on a real collection.TimingWheel (1 s x 300 slots, fake ticker ticked once per virtual second, chains driven to "
+        "the 1 h stage), otherwise on the abstract timer; jitter draws u=m/1024 scripted per op; the TTL of every key is read back from miniredis after "
         "every op (0 = no expiry); ~22% of the histories inject GET/SET/DEL faults per "
         "Redis command (per node in the cluster); 40% CachedConn over one node, 35% cache node, 25% 3-node cluster "
         "with the observed consistent-hash placement; one quarter of the cases are CONCURRENT (level conc, CachedConn): "
@@ -50,8 +54,8 @@ TRUSTED = ["miniredis as Redis (GET/SET EX/DEL, FastForward as the server clock)
            "evaluation in the model on the generated draws u=m/1024 and whole-second expiries (the exact value is a "
            "multiple of 1/10240 s; the float64 error stays below 1 us even for 10 y, so it never crosses a second boundary "
            "except where the exact value is a whole second: the generator keeps only m = 0 and m = 512 of those)",
-           "the abstract timer played by the cache driver (due tick = tick + delay/1s) is what the timing wheel "
-           "implements (C10); in the sqlc driver the real wheel never fires inside a case (cases last milliseconds, "
+           "in the 'abs' cases the abstract timer played by the cache driver (due tick = tick + delay/1s) is what the timing "
+           "wheel implements (C10); the 'real' cases run the wheel itself; in the sqlc driver the real wheel never fires inside a case (cases last milliseconds, "
            "slow ones are rerun)",
            "the Redis circuit breaker stays closed: drivers empty its window through the virtual clock before every call"]
 ASSUMPTIONS = ["c06_one_query_in_flight is proved from C18's transcription of singleflight.go (C18.ProofsSF.sf_one_flight_per_key = "
@@ -133,6 +137,13 @@ def gen_case(rng, level, faulty, long_chain=False, long_ttl=False):
             ops.append({"op": "fault", "node": node, "g": g, "s": s, "d": d})
             continue
         r = rng.random()
+        if rng.random() < 0.05:
+            # a read under an already cancelled context, of a key that is cached or not
+            if level == "sqlc" and rng.random() < 0.4:
+                ops.append({"op": "qidxc", "ix": rng.randrange(NIX), "u": _draws(rng, 2)})
+            else:
+                ops.append({"op": "qrowc", "id": rng.randrange(NPK), "u": _draws(rng, 1)})
+            continue
         if r < 0.30:
             ops.append({"op": "qrow", "id": rng.randrange(NPK), "u": _draws(rng, 1)})
         elif r < 0.50:
@@ -176,7 +187,7 @@ def gen_case(rng, level, faulty, long_chain=False, long_ttl=False):
             ops.append({"op": "set", "key": k, "val": list(v), "u": _draws(rng, 1)})
         elif r < 0.97:
             if long_chain and rng.random() < 0.5:
-                dt = rng.choice([60, 300, 400, 3600, 4000])
+                dt = rng.choice([60, 66, 300, 301, 366, 400, 3600, 3966, 4000])
             elif delfault and level != "sqlc":
                 dt = rng.choice([1, 1, 2, 5, 6, 7, 60, 66, 300, 400])
             else:
@@ -195,6 +206,21 @@ def gen_case(rng, level, faulty, long_chain=False, long_ttl=False):
             if o["op"] == "adv" and level == "sqlc" and rng.random() < 0.3:
                 o["dt"] = rng.choice([expire // 2, expire * 19 // 20 - 1, expire * 19 // 20 + 1, expire * 21 // 20 + 6, nfexpire, DAY])
     c = {"level": level, "expire": expire, "nfexpire": nfexpire, "nnodes": nn, "ops": ops}
+    if level in ("node", "cluster"):
+        # how the cache is built (struct literals / cache.New with a Config of nn nodes / cache.NewNode) and which
+        # options it gets; an option that is not passed leaves the package default
+        c["ctor"] = rng.choice(["lit", "new", "new"] if level == "cluster" else ["lit", "new", "newnode"])
+        c["opts"] = "both"
+        if c["ctor"] != "lit" and rng.random() < 0.3:
+            c["opts"] = rng.choice(["e", "n", "none"])
+            if c["opts"] in ("n", "none"):
+                c["expire"] = 7 * DAY
+            if c["opts"] in ("e", "none"):
+                c["nfexpire"] = 60
+        # the cleaner on the real timing wheel (fake ticker) or on the abstract timer played by the driver
+        c["wheel"] = "real" if rng.random() < 0.7 else "abs"
+        if c["wheel"] == "real":
+            ops.append({"op": "adv", "dt": 1})   # so that a chain armed by the last operation shows up
     return c
 
 
@@ -323,9 +349,24 @@ def search(rng, problems):
                 ops.append({"op": "fault", "node": -1, "g": False, "s": False, "d": False})
             ops += [{"op": "adv", "dt": 7}, {"op": "qrow", "id": 1, "u": [7]}, {"op": "adv", "dt": 4000},
                     {"op": "qrow", "id": 1, "u": [7]}]
-            out.append({"level": level, "expire": 3600, "nfexpire": 60, "nnodes": nn, "ops": ops})
+            out.append({"level": level, "expire": 3600, "nfexpire": 60, "nnodes": nn, "ops": ops + [{"op": "adv", "dt": 1}],
+                        "ctor": "new", "opts": "both", "wheel": "real"})
+            out.append({"level": level, "expire": 3600, "nfexpire": 60, "nnodes": nn, "ops": ops, "ctor": "lit", "opts": "both", "wheel": "abs"})
     for _ in range(40):
         out.append(gen_case(rng, rng.choice(["node", "cluster"]), True, True))
+    # options through every constructor, on every node; reads under a cancelled context of cached / uncached keys
+    for level, ctor, nn in (("node", "new", 1), ("node", "newnode", 1), ("cluster", "new", 3), ("cluster", "new", 2)):
+        for e, nfe, opts in ((100, 10, "both"), (3600, 7, "both"), (50, 60, "e"), (7 * DAY, 9, "n"), (7 * DAY, 60, "none")):
+            ops = [{"op": "exec", "w": ["put", i, 0, 7 + i], "keys": [["pk", i]]} for i in (0, 1)]
+            ops += [{"op": "qrow", "id": i, "u": [m]} for i, m in ((0, 0), (1, 1023), (2, 512), (3, 0))]
+            ops += [{"op": "qrowc", "id": i, "u": [512]} for i in (0, 2)]
+            ops += [{"op": "del", "keys": [["pk", 0]]}, {"op": "qrowc", "id": 0, "u": [512]}, {"op": "qrow", "id": 0, "u": [7]},
+                    {"op": "set", "key": ["pk", 3], "val": ["row", 3, 2, 9], "u": [1023]}, {"op": "adv", "dt": 1}]
+            out.append({"level": level, "expire": e, "nfexpire": nfe, "nnodes": nn, "ops": ops, "ctor": ctor, "opts": opts, "wheel": "real"})
+    out.append({"level": "sqlc", "expire": 100, "nfexpire": 10, "nnodes": 1, "ops": [
+        {"op": "exec", "w": ["put", 1, 0, 7], "keys": [["pk", 1], ["ix", 0]]}, {"op": "qidx", "ix": 0, "u": [5, 6]},
+        {"op": "qrowc", "id": 1, "u": [1]}, {"op": "qidxc", "ix": 0, "u": [1, 2]}, {"op": "qrowc", "id": 2, "u": [1]},
+        {"op": "qidxc", "ix": 1, "u": [1, 2]}, {"op": "qrow", "id": 1, "u": [1]}]})
     for e in LONG_EXPIRIES:
         for m in (0, 512, 1023):
             out.append({"level": "sqlc", "expire": e, "nfexpire": e, "nnodes": 1, "ops": [
@@ -407,7 +448,7 @@ def cres(o):
     if r == "row":
         a = o["row"]
         return "(RRow %s %s %s)" % (cnat(a[0]), cnat(a[1]), cnat(a[2]))
-    return {"nf": "RNotFound", "cerr": "RCacheErr", "ok": "ROk", "execerr": "RExecErr"}.get(r, "RUnmodelled")
+    return {"nf": "RNotFound", "cerr": "RCacheErr", "ok": "ROk", "execerr": "RExecErr", "ctx": "RCtxErr"}.get(r, "RUnmodelled")
 
 
 def cop(o):
@@ -415,6 +456,10 @@ def cop(o):
     u = (o.get("u") or [512]) + [512, 512]
     if k == "qrow":
         return "XQRow %s %s" % (cnat(o["id"]), cZ(u[0]))
+    if k == "qrowc":
+        return "XQRowC %s" % cnat(o["id"])
+    if k == "qidxc":
+        return "XQIdxC %s" % cnat(o["ix"])
     if k == "qidx":
         return "XQIdx %s %s %s" % (cnat(o["ix"]), cZ(u[0]), cZ(u[1]))
     if k == "exec":
@@ -488,8 +533,8 @@ def encode(case, obs):
 def encode_seq(case, obs):
     level = {"sqlc": 0, "node": 1, "cluster": 2}[case["level"]]
     uni = _universe()
-    if not isinstance(obs, dict) or "ops" not in obs:
-        # driver error / panic: a case on which both checkers fail
+    if not isinstance(obs, dict) or "ops" not in obs or obs.get("aborted"):
+        # driver error / panic / the cleaner did not settle: a case on which both checkers fail
         return "mkcase %s %s %s %s [] %s [] [] 0%%Z" % (cnat(level), cZ(case["expire"]), cZ(case["nfexpire"]), cnat(case["nnodes"]),
                                                         clist([cop(o) for o in case["ops"]]))
     rows = []
@@ -499,7 +544,8 @@ def encode_seq(case, obs):
     logs = []
     for lg in obs["logs"]:
         evs = []
-        for e in lg:
+        # chronological: within a tick the retries run first (at the tick), deletes that arm chains come after
+        for e in sorted(lg, key=lambda e: (e[2], 0 if e[0] == "try" else 1)):
             if e[0] == "arm":
                 evs.append("EvArm %s %s %s" % (cnat(e[1]), cZ(e[2]), clist([ckey(x) for x in e[3]])))
             else:
@@ -571,6 +617,9 @@ def bucket(case, obs):
             out.append("conc:stale-entry-after-race")
         return out
     out = ["level:" + case["level"], "ops<=%d" % (((len(case["ops"]) + 19) // 20) * 20)]
+    if case.get("ctor"):
+        out.append("ctor:%s/%s%s" % (case["ctor"], case.get("opts"), "/%d-nodes" % case["nnodes"] if case["level"] == "cluster" else ""))
+        out.append("wheel:" + case.get("wheel", "abs"))
     for name, e in (("expire", case["expire"]), ("nfexpire", case["nfexpire"])):
         if e >= 3600:
             out.append("%s:%s" % (name, "%dd" % (e // DAY) if e >= DAY else "1h"))
@@ -591,6 +640,12 @@ def bucket(case, obs):
         if ob["r"] == "nf" and dq == 0:
             out.append("placeholder-hit")
             break
+    live = set()
+    for o, ob in zip(case["ops"], obs["ops"]):
+        if o["op"] in ("qrowc", "qidxc"):
+            key = o["id"] if o["op"] == "qrowc" else NPK + o["ix"]
+            out.append("cancelled-read:%s" % ("cached" if key in live else "uncached"))
+        live = {d[1] for d in ob["dump"]}
     for lg in obs.get("logs", []):
         arms = [e for e in lg if e[0] == "arm"]
         for a in arms:
